@@ -62,7 +62,7 @@ example : deserialize true true ([58, 48, 0, 0, 1, 0, 0, 0, 7, 0, 0, 0, 16, 0, 0
   rfl
 
 /-- the buffers handed to `write_all` by `serialize_into`, concatenated, are the serialisation -/
-theorem serializeFields_flatten (b : Bitmap) : (Bitmap.serializeFields b).flatten = Bitmap.serialize b := by
+theorem C14_serializeFields_flatten (b : Bitmap) : (Bitmap.serializeFields b).flatten = Bitmap.serialize b := by
   have hd : ∀ b : Bitmap, (Bitmap.descrFields b).flatten = Bitmap.descrBytes b := by
     intro b
     induction b with
@@ -102,7 +102,7 @@ theorem C14_write (b : Bitmap) (room : Nat) (zeroMode : Bool) (sched : List IoEv
         ↔ (Bitmap.serialize b).length ≤ room) := by
   have h := writeFields_spec (Bitmap.serializeFields b)
     { accRev := [], room := room, zeroMode := zeroMode, sched := sched }
-  rw [serializeFields_flatten] at h
+  rw [C14_serializeFields_flatten] at h
   simpa [SWriter.bytes, Bitmap.serializeInto] using h
 
 example : (Bitmap.serializeInto [{ key := 7, store := .array [5] }]
